@@ -144,7 +144,8 @@ class Renderer(object):
                 e["text_line"] = len(self.lines)
                 for d in st["doc"]:
                     self.emit([col + d, col + d + "   "], "doc-line")
-                self.emit([col + q, col + q + "  "], "doc-close")
+                # (the closing delimiter need not be aligned with the opening one)
+                self.emit([col + q, col + q + "  ", col + "  " + q, col[:-2] + q], "doc-close")
                 e["text"] = "\n".join(d.rstrip() for d in st["doc"])
             if st.get("table") is not None:
                 e["table"] = self.table(st["table"])
